@@ -285,8 +285,9 @@ class Check:
                                   fresh.launch({"mode": "eval", "reqs": [s["req"] for s in part]}, hs, VERIF, cwd, lc)))
         # R2-single: the real thing - one request per brand-new interpreter, no fork in between
         singles = samples[: self.plan["r2_single"]]
+        own_hs = os.environ.get("PYTHONHASHSEED", "0")   # same hash seed as the pristine fork: isolates "fork vs fresh"
         for n, s in enumerate(singles):
-            procs.append(("single", 7000 + n, [s], fresh.launch({"mode": "single", "req": s["req"]}, 7000 + n, VERIF, "/", "C")))
+            procs.append(("single", own_hs, [s], fresh.launch({"mode": "single", "req": s["req"]}, own_hs, VERIF, "/", "C")))
         # R3: fault-free and faulted histories replayed whole, unjudged, in another process
         r3 = []
         for (b, i), rep in sorted(self.kept.items()):
@@ -617,6 +618,7 @@ def evidence(chk, ref, det, state, wall, t_batches, new, kn):
                       "faulted_not_judged": st.get("calls_faulted", 0),
                       "unjudged_unrebuildable_argument": st.get("calls_unjudged_unrebuildable", 0),
                       "judged_after_adversarial_event": st.get("judged_after_adversarial_event", 0),
+                      "bystander_checks_I4": st.get("bystander_checks", 0),
                       "by_family": fam("calls:"), "judged_by_family": fam("judged:")},
             "faults": {
                 "F1_F2_caller_mutations": {"applied": st.get("mutations_applied", 0), "changed_value": st.get("mutations_changed_value", 0),
